@@ -231,8 +231,8 @@ func (v *VDR) Create(did *docdid.Doc,
 		return nil, err
 	}
 
-	for k := range pks {
-		createOpt = append(createOpt, create.WithPublicKey(pks[k].publicKey))
+	for _, k := range pks {
+		createOpt = append(createOpt, create.WithPublicKey(k.publicKey))
 	}
 
 	createOpt = append(createOpt,
@@ -296,8 +296,12 @@ type pk struct {
 	publicKey *doc.PublicKey
 }
 
-func getSidetreePublicKeys(didDoc *docdid.Doc) (map[string]*pk, error) { //nolint:funlen,gocyclo
+// getSidetreePublicKeys returns the public keys of the document in order of first appearance,
+// so that the same document always results in the same create request (and hence the same DID).
+func getSidetreePublicKeys(didDoc *docdid.Doc) ([]*pk, error) { //nolint:funlen,gocyclo
 	pksMap := make(map[string]*pk)
+
+	var pks []*pk
 
 	ver := make([]docdid.Verification, 0)
 
@@ -363,9 +367,11 @@ func getSidetreePublicKeys(didDoc *docdid.Doc) (map[string]*pk, error) { //nolin
 		default:
 			return nil, fmt.Errorf("verificationMethod needs either JSONWebKey or Base58 key")
 		}
+
+		pks = append(pks, pksMap[id])
 	}
 
-	return pksMap, nil
+	return pks, nil
 }
 
 // Option configures the long-form vdr.
